@@ -77,6 +77,16 @@ reg('C06', 'exhaustive whole-table enumeration (keys × syntaxes × scopes, keyw
     'that override shipped keys and add new ones. Exhaustive over the shipped table.',
     '`lg` is resolved by the gradient shortcut and is not combined with scopes or user tables; blank placement inside property values is not compared (blank-insensitive equality).')
 
+reg('C14', 'exhaustive snippet-table enumeration × decoration subsets + Hypothesis user tables with cycles; differential alias vs definition/splice, placement predicates, profiled resolution depth',
+    'Every key of the html/xsl/pug tables is expanded alone and (single-element definitions) with decoration subsets and compared with the expansion of its definition / the textual splice, format on and off, '
+    'reverseAttributes on and off; decorations must be visible on the result; for multi-element definitions alias classes must land once on every top-level element and children in the deepest last element. '
+    'Hypothesis user tables over s1…s6 (self/mutual recursion, repeaters, groups) must terminate under the CPU watchdog without RecursionError and with profiled resolve() nesting ≤ distinct definitions + 1.',
+    'Alias == definition is asserted for acyclic tables only; the alias and the splice share the resolver, so common faults are caught by the visibility/placement predicates, not by the differential.')
+reg('C12', 'metamorphic comparison of two option sets through an independent output lexer + indentation-law predicate; exhaustive option-toggle grid on fixed abbreviations, Hypothesis beyond',
+    '46 fixed abbreviations (incl. xsl aliases with content under comments) × all 288 combinations of 7 option toggles against defaults, and Hypothesis scripts × two random option sets over all formatting, comment and self-closing options for html/xml/xsl/jsx/vue/svelte: '
+    'normalised token streams must be equal (white space, comment tokens and the self-closing slash are the only permitted differences); under format-on/no formatSkip/xhtml-xml style every line must carry exactly baseIndent + indent × open elements.',
+    'Text is compared with white space removed (white space between adjacent text nodes is inter-node white space); comment templates are in comment syntax; one known finding (multi-line text before children) is listed in KNOWN_FINDINGS.txt.')
+
 NOT_APPLICABLE = [
 ]
 
